@@ -133,32 +133,65 @@ def update_guard(ctx, prop_prefix):
                           "the worker's pattern is overwritten with the matcher's current pattern before Snapshot::update copies the finished run: the snapshot gets the new pattern together with the old run's matches and scores")
         else:
             ctx.ok(site(fn, bi), "Snapshot::update runs before the worker's pattern is replaced (%d write site(s) after it)" % len(wr))
-    # was_canceled: set whenever the sort reports cancellation, cleared only at the start of run
+    # was_canceled at the end of a run == "the run was cancelled": (a) every path to a return writes it (no stale value
+    # from the previous run), (b) on the cancelled edge of the sort it ends up true, (c) it is only set to false where
+    # no cancellation can have happened yet
     run = get_fn(ctx.facts, "nucleo", RUN)
-    sets = [(bi, si, s) for bi, si, s in field_assigns(run, "was_canceled") if si != "term" and "use" in s["rv"]]
-    trues = [(bi, si) for bi, si, s in sets if run.const_of_operand(s["rv"]["use"]) == 1]
-    falses = [(bi, si) for bi, si, s in sets if run.const_of_operand(s["rv"]["use"]) == 0]
     qs = [(bi, t) for bi, t in run.calls(lambda t: callee(t) == "par_sort::par_quicksort")]
     if not qs:
         raise Inconclusive("run does not call par_quicksort")
     qb, qt = qs[0]
+    q_id = (qb, qt["dest"]["l"])
+    writes = []
+    for bi, si, s in field_assigns(run, "was_canceled"):
+        if si == "term":
+            writes.append((bi, "O"))
+            continue
+        e = strip_casts(run.expr_of_rvalue(s["rv"]))
+        if e[0] == "const" and e[1] in (0, 1, True, False):
+            writes.append((bi, "T" if e[1] else "F"))
+        elif e[0] == "call" and len(e) > 4 and e[4] == q_id:
+            writes.append((bi, "S"))
+        else:
+            writes.append((bi, "O"))
+            ctx.violation(RUN + "|was_canceled|value", site(run, bi), "was_canceled is assigned %s, neither a constant nor the sort's cancellation result" % show(e)[:80])
+    wblocks = [b_ for b_, k_ in writes]
+    if wblocks and run.all_paths_to_return_pass(0, via_nodes=wblocks):
+        ctx.ok(site(run, 0), "every path through run writes was_canceled (no value is carried over from the previous run)")
+    else:
+        r_ = run.reach_from(0, removed_nodes=wblocks)
+        ret = [x for x in run.returns if x in r_]
+        ctx.violation(RUN + "|was_canceled|clear", site(run, ret[0] if ret else 0),
+                      "a path through run returns without writing was_canceled: the flag keeps the previous run's value (a stale `true` makes the next tick discard a finished run, a stale `false` installs a cancelled one)")
     sw = run.blocks[qt["target"]]["term"]
     okc = False
     if sw["k"] == "switch":
         e = run.expr_of_operand(sw["discr"])
         if e[0] == "call" and e[1] == "par_sort::par_quicksort":
             tt = sw["otherwise"]
-            # every path from the cancelled edge to return sets was_canceled = true
-            if trues and run.all_paths_to_return_pass(tt, via_nodes=[b for b, _ in trues]):
+            marks = [b_ for b_, k_ in writes if k_ in ("T", "S")]
+            # every path from the cancelled edge to return sets was_canceled = true (or the sort's result)
+            if marks and run.all_paths_to_return_pass(tt, via_nodes=marks):
                 okc = True
+    else:
+        # the result is stored first and branched on later: `self.was_canceled = canceled; if canceled { return }`
+        s_marks = [b_ for b_, k_ in writes if k_ == "S"]
+        if s_marks and run.all_paths_to_return_pass(qt["target"], via_nodes=s_marks):
+            okc = True
+    if not okc:
+        s_marks = [b_ for b_, k_ in writes if k_ == "S"]
+        if s_marks and run.all_paths_to_return_pass(qt["target"], via_nodes=s_marks):
+            okc = True
     if okc:
         ctx.ok(site(run, qb), "a cancelled sort always marks the run was_canceled")
     else:
         ctx.violation(RUN + "|was_canceled|set", site(run, qb), "a cancelled sort can return without setting was_canceled: a partially sorted / partially scored list would be installed")
-    if falses and all(b == 0 for b, _ in falses):
-        ctx.ok(site(run, 0), "was_canceled cleared only at the start of a run")
-    else:
-        ctx.violation(RUN + "|was_canceled|clear", site(run, falses[0][0] if falses else 0), "was_canceled is cleared somewhere other than the start of run (or never)")
+    after_sort = run.reach_from(qt["target"]) if qt["target"] is not None else set()
+    badf = [b_ for b_, k_ in writes if k_ == "F" and b_ in after_sort]
+    if badf:
+        ctx.violation(RUN + "|was_canceled|clear", site(run, badf[0]), "was_canceled is cleared after the sort (where a cancellation may already have been observed)")
+    elif any(k_ == "F" for b_, k_ in writes) or any(k_ == "S" for b_, k_ in writes):
+        ctx.ok(site(run, 0), "was_canceled is set to false only before any cancellation point of the run")
     # cancellation between the scoring pass and the sort: every early `return Match{score:0, idx}` for a cancelled
     # scan is followed by the sort's own cancel check => covered by C18.cancel-taint
 
